@@ -24,7 +24,7 @@ impl Ord for Ep { fn cmp(&self, o: &Self) -> std::cmp::Ordering { self.id.cmp(&o
 #[derive(Clone, Debug, Default)]
 pub struct Reply { pub code: u64, pub opts: Vec<(u16, Vec<Vec<u8>>)>, pub body: Vec<u8> }
 #[derive(Clone, Debug)]
-pub enum Step { Ex(u64, PktDesc, u64, Reply), Sleep, Nap }
+pub enum Step { Ex(u64, PktDesc, u64, Reply), Sleep, Nap, Begin(u64, PktDesc, u64, Reply), End(u64) }
 
 pub fn write_case(m: u64, mode: u64, steps: &[Step]) -> Vec<u64> {
     let mut v = vec![m, mode, steps.len() as u64];
@@ -33,6 +33,14 @@ pub fn write_case(m: u64, mode: u64, steps: &[Step]) -> Vec<u64> {
         match s {
             Step::Sleep => v.push(1),
             Step::Nap => v.push(3),
+            Step::End(tid) => { v.push(5); v.push(*tid); }
+            Step::Begin(tid, p, src, rp) => {
+                prev = Some(rp);
+                v.push(4); v.push(*tid); p.write(&mut v); v.push(*src);
+                v.push(rp.code); v.push(rp.opts.len() as u64);
+                for (k, vs) in &rp.opts { v.push(*k as u64); v.push(vs.len() as u64); for x in vs { wr_bytes(&mut v, x); } }
+                wr_bytes(&mut v, &rp.body);
+            }
             Step::Ex(tid, p, src, rp) => {
                 if let Some(q) = prev { if q.code == rp.code && q.opts == rp.opts && q.body == rp.body {
                     v.push(2); v.push(*tid); p.write(&mut v); v.push(*src); continue;
@@ -52,14 +60,17 @@ fn rd_reply(c: &mut Cur) -> Reply {
     let opts = (0..n).map(|_| { let k = c.n() as u16; let nv = c.n(); (k, (0..nv).map(|_| c.bytes()).collect()) }).collect();
     Reply { code, opts, body: c.bytes() }
 }
-fn rd_steps(c: &mut Cur) -> Vec<(u64, Option<(Packet, u64, Reply)>)> {
+pub enum RStep { Ex(u64, Packet, u64, Reply), Sleep, Nap, Begin(u64, Packet, u64, Reply), End(u64) }
+fn rd_steps(c: &mut Cur) -> Vec<RStep> {
     let n = c.n();
     let mut prev = Reply::default();
     (0..n).map(|_| match c.n() {
-        0 => { let tid = c.n(); let p = rd_packet(c); let src = c.n(); prev = rd_reply(c); (tid, Some((p, src, prev.clone()))) }
-        2 => { let tid = c.n(); let p = rd_packet(c); let src = c.n(); (tid, Some((p, src, prev.clone()))) }
-        3 => (1, None),
-        _ => (0, None) }).collect()
+        0 => { let tid = c.n(); let p = rd_packet(c); let src = c.n(); prev = rd_reply(c); RStep::Ex(tid, p, src, prev.clone()) }
+        2 => { let tid = c.n(); let p = rd_packet(c); let src = c.n(); RStep::Ex(tid, p, src, prev.clone()) }
+        3 => RStep::Nap,
+        4 => { let tid = c.n(); let p = rd_packet(c); let src = c.n(); prev = rd_reply(c); RStep::Begin(tid, p, src, prev.clone()) }
+        5 => RStep::End(c.n()),
+        _ => RStep::Sleep }).collect()
 }
 
 fn wr_result(out: &mut Vec<u64>, r: &Result<bool, coap_lite::error::HandlingError>) {
@@ -75,18 +86,32 @@ fn wr_block(out: &mut Vec<u64>, b: &Option<BlockValue>) {
 
 fn digest(l: impl Iterator<Item = u64>) -> u64 { l.fold(7u64, |acc, x| (acc * 31 + x) % 1000003) }
 
-pub struct Server { pub h: BlockHandler<Ep>, pub live: Arc<AtomicI64>, pub always: bool }
+pub struct Server { pub h: BlockHandler<Ep>, pub live: Arc<AtomicI64>, pub always: bool, pub npending: i64 }
+/// a request that has been through intercept_request and waits for its (slow) application
+pub struct Pending { rq: CoapRequest<Ep>, r1: Result<bool, coap_lite::error::HandlingError> }
 impl Server {
     pub fn new(m: u64, ttl: Duration) -> Server {
-        Server { h: BlockHandler::new(BlockHandlerConfig { max_total_message_size: m as usize, cache_expiry_duration: ttl }), live: Arc::new(AtomicI64::new(0)), always: false }
+        Server { h: BlockHandler::new(BlockHandlerConfig { max_total_message_size: m as usize, cache_expiry_duration: ttl }), live: Arc::new(AtomicI64::new(0)), always: false, npending: 0 }
     }
     /// one exchange; returns the observation fields and the final response
     pub fn exchange(&mut self, p: &Packet, src: u64, rp: &Reply) -> (Vec<u64>, Option<Packet>) {
-        let mut out = Vec::new();
+        let pd = self.begin(p, src);
+        self.end(pd, rp)
+    }
+    /// first half: the request arrives and goes through intercept_request
+    pub fn begin(&mut self, p: &Packet, src: u64) -> Pending {
         let ep = Ep { id: src, live: self.live.clone() };
         self.live.fetch_add(1, Ordering::SeqCst);
         let mut rq: CoapRequest<Ep> = CoapRequest::from_packet(p.clone(), ep);
         let r1 = self.h.intercept_request(&mut rq);
+        self.npending += 1;
+        Pending { rq, r1 }
+    }
+    /// second half: the application answers, the response goes through intercept_response
+    pub fn end(&mut self, pd: Pending, rp: &Reply) -> (Vec<u64>, Option<Packet>) {
+        let Pending { mut rq, r1 } = pd;
+        self.npending -= 1;
+        let mut out = Vec::new();
         wr_result(&mut out, &r1);
         if let Ok(false) = r1 {
             out.push(1);
@@ -118,24 +143,46 @@ impl Server {
             }
         }
         drop(rq);
-        out.push((self.live.load(Ordering::SeqCst) / 2) as u64);
+        // every physical entry holds two clones of its endpoint; every request still pending holds one
+        out.push(((self.live.load(Ordering::SeqCst) - self.npending) / 2) as u64);
         (out, resp)
     }
 }
 
-fn run_steps(m: u64, mode: u64, steps: &[(u64, Option<(Packet, u64, Reply)>)], only: Option<u64>) -> Vec<u64> {
-    // mode 0: one hour; mode 1: 40 ms with 200 ms sleeps; mode 2: 300 ms with 100 ms naps (only the last exchange is observed)
+fn run_steps(m: u64, mode: u64, steps: &[RStep], only: Option<u64>) -> Vec<u64> {
+    // mode 0 / 3: one hour; mode 1: 40 ms with 200 ms sleeps; mode 2: 300 ms with 100 ms naps (only the last exchange is observed)
     let ttl = match mode { 0 | 3 => Duration::from_secs(3600), 1 => Duration::from_millis(40), _ => Duration::from_millis(300) };
-    let last_ex = steps.iter().rposition(|(_, s)| s.is_some());
+    let last_ex = steps.iter().rposition(|s| matches!(s, RStep::Ex(..)));
     let mut srv = Server::new(m, ttl);
     srv.always = mode == 3;
     let mut out = Vec::new();
     let mut after_sleep = false;
-    for (idx, (tid, s)) in steps.iter().enumerate() {
-        match s {
-            None => { if only.is_none() { if *tid == 1 { std::thread::sleep(Duration::from_millis(100)); } else { std::thread::sleep(Duration::from_millis(200)); after_sleep = true; } } }
-            Some((p, src, rp)) => {
-                if let Some(t) = only { if *tid != t { continue; } }
+    let mut pending: Vec<(u64, Pending, Reply)> = Vec::new();
+    let wanted = |tid: u64| only.map_or(true, |t| t == tid);
+    for (idx, st) in steps.iter().enumerate() {
+        match st {
+            RStep::Sleep => { if only.is_none() { std::thread::sleep(Duration::from_millis(200)); after_sleep = true; } }
+            RStep::Nap => { if only.is_none() { std::thread::sleep(Duration::from_millis(100)); } }
+            RStep::Begin(tid, p, src, rp) => {
+                if !wanted(*tid) { continue; }
+                match catch_unwind(AssertUnwindSafe(|| srv.begin(p, *src))) {
+                    Ok(pd) => pending.push((*tid, pd, rp.clone())),
+                    Err(_) => { out.push(2); out.push(9); out.push(0); return out; }
+                }
+            }
+            RStep::End(tid) => {
+                if !wanted(*tid) { continue; }
+                if let Some(i) = pending.iter().position(|x| x.0 == *tid) {
+                    let (_, pd, rp) = pending.remove(i);
+                    match catch_unwind(AssertUnwindSafe(|| srv.end(pd, &rp))) {
+                        Ok((o, _)) => { out.push(o.len() as u64); out.extend(o); }
+                        Err(_) => { out.push(2); out.push(9); out.push(0); return out; }
+                    }
+                    after_sleep = false;
+                }
+            }
+            RStep::Ex(tid, p, src, rp) => {
+                if !wanted(*tid) { continue; }
                 let r = catch_unwind(AssertUnwindSafe(|| srv.exchange(p, *src, rp)));
                 match r {
                     Ok((mut o, _)) => {
@@ -161,7 +208,7 @@ pub fn exec(suite: u32, input: &[u64]) -> Vec<u64> {
     let mut out = vec![inter.len() as u64];
     out.extend(inter);
     let mut tids: Vec<u64> = Vec::new();
-    for (t, s) in steps.iter() { if s.is_some() && !tids.contains(t) { tids.push(*t); } }
+    for st in steps.iter() { if let RStep::Ex(t, ..) | RStep::Begin(t, ..) = st { if !tids.contains(t) { tids.push(*t); } } }
     for t in tids { let o = run_steps(m, mode, &steps, Some(t)); out.push(o.len() as u64); out.extend(o); }
     out
 }
@@ -268,7 +315,7 @@ pub fn gen80(tier: &str, r: &mut Rng, emit: &mut dyn FnMut(Vec<u64>)) {
     for szx in 0..7u8 {
         let sz = 16usize << szx;
         let m = (sz as u64 + 60).min(1280);
-        let lens: Vec<usize> = if (thorough && szx < 5) || szx < 3 { (0..=3 * sz + 1).collect() } else { vec![0, 1, sz - 1, sz, sz + 1, 2 * sz - 1, 2 * sz, 2 * sz + 1, 3 * sz, 3 * sz + 1] };
+        let lens: Vec<usize> = if (thorough && szx < 4) || szx < 3 { (0..=3 * sz + 1).collect() } else { vec![0, 1, sz - 1, sz, sz + 1, 2 * sz - 1, 2 * sz, 2 * sz + 1, 3 * sz, 3 * sz + 1] };
         for blen in lens { one(r, blen, m, None, None, 1, emit); if blen % 5 == 0 || blen <= 1 { one(r, blen, 1152, Some(szx), None, 1, emit); } }
     }
     for blen in [5000usize, 20000] { for pref in [None, Some(6u8)] { one(r, blen, 1152, pref, None, 8, emit); } }
@@ -293,7 +340,7 @@ pub fn gen80(tier: &str, r: &mut Rng, emit: &mut dyn FnMut(Vec<u64>)) {
     }
     // a transfer abandoned before its final block, the resource changes, and a new transfer starts WITHOUT Block2:
     // it must deliver the new body (the stale cache entry may not be used)
-    for _ in 0..(if thorough { 2000 } else { 200 }) {
+    for _ in 0..(if thorough { 600 } else { 200 }) {
         let m = r.pick(&[76u64, 140, 300, 1152]);
         let (o1, o2) = (rand_reply_opts(r), rand_reply_opts(r));
         let m = m.max(min_budget(&o1, 8)).max(min_budget(&o2, 8));
@@ -313,7 +360,7 @@ pub fn gen80(tier: &str, r: &mut Rng, emit: &mut dyn FnMut(Vec<u64>)) {
     }
     // the first request ends an upload (single final Block1 block) AND negotiates Block2 early; and FETCH transfers whose
     // follow-up requests repeat the request body
-    for _ in 0..(if thorough { 1500 } else { 150 }) {
+    for _ in 0..(if thorough { 500 } else { 150 }) {
         let opts = rand_reply_opts(r);
         let m = r.pick(&[100u64, 200, 600, 1152]).max(min_budget(&opts, 8) + 30);
         let rp = Reply { code: r.pick(&[0x45u64, 0x44]), opts, body: r.bytes_pick(&[20usize, 100, 700, 2500]) };
@@ -330,7 +377,7 @@ pub fn gen80(tier: &str, r: &mut Rng, emit: &mut dyn FnMut(Vec<u64>)) {
         emit(write_case(m, 0, &steps));
     }
     // early negotiation x budgets x mid-transfer reduction
-    for _ in 0..(if thorough { 4_000 } else { 500 }) {
+    for _ in 0..(if thorough { 2_000 } else { 500 }) {
         let blen = r.pick(&[0usize, 1, 15, 16, 17, 100, 500, 1023, 1024, 1025, 3000]);
         let blen = if r.chance(1, 2) { blen } else { r.below(2500) as usize };
         let m = if r.chance(1, 2) { r.pick(&[64u64, 80, 128, 256, 512, 1024, 1152, 1280]) } else { 60 + r.below(1221) };
@@ -469,6 +516,17 @@ pub fn gen100(tier: &str, r: &mut Rng, emit: &mut dyn FnMut(Vec<u64>)) {
         let steps = upload_steps(1, &base, 7, &body, szx, &|_| 1, None, &Reply { code: 0x44, opts: vec![], body: vec![] });
         emit(write_case(m, 0, &steps));
     }
+    // a slow resource: the request names a block size, then 1..1100 exchanges on OTHER keys complete before its own
+    // application answers; the reply must still be cut to the size this request named
+    for &n in (if thorough { &[1u64, 2, 50, 1023, 1024, 1100, 2000][..] } else { &[1u64, 60, 1100][..] }) { for szx in [0u8, 2] {
+        let mut q = ReqSpec::get(&["slow"]); q.b2 = Some(bv(0, false, szx)); q.token = vec![7, szx];
+        let rp = Reply { code: 0x45, opts: vec![], body: r.bytes(1500) };
+        let mut steps = vec![Step::Begin(1, q.desc(), 7, rp)];
+        for i in 0..n { let mut o = ReqSpec::get(&["quick"]); o.mid = i as u16; o.token = vec![(i % 251) as u8];
+            steps.push(Step::Ex(50 + i, o.desc(), 100 + i, Reply { code: 0x45, opts: vec![], body: vec![1, 2, 3] })); }
+        steps.push(Step::End(1));
+        emit(write_case(128, 0, &steps));
+    } }
     // a request that ends an upload AND names a Block2 size for the (large) reply: the reply's block must not exceed it
     for _ in 0..(if thorough { 6_000 } else { 400 }) {
         let mut base = ReqSpec::get(&["u"]);
@@ -598,6 +656,21 @@ pub fn gen120(tier: &str, r: &mut Rng, emit: &mut dyn FnMut(Vec<u64>)) {
                 let mut pos = vec![0usize; lens.len()];
                 let steps: Vec<Step> = order.iter().map(|&t| { let s = transfers[t][pos[t]].clone(); pos[t] += 1; s }).collect();
                 emit(write_case(16 + 60, 0, &steps));
+            }
+            // every exchange split in two (request seen / application answers), the halves of different transfers nested:
+            // A.begin B.begin A.end B.end ... -- another transfer's exchange falls between a request and its own response
+            if transfers.len() >= 2 {
+                let n = transfers.iter().map(|t| t.len()).min().unwrap();
+                for nest in 0..2 {
+                    let mut steps: Vec<Step> = Vec::new();
+                    for i in 0..n {
+                        let row: Vec<&Step> = transfers.iter().map(|t| &t[i]).collect();
+                        for st in row.iter() { if let Step::Ex(t, d, sr, rp) = st { steps.push(Step::Begin(*t, d.clone(), *sr, rp.clone())); } }
+                        let order: Vec<usize> = if nest == 0 { (0..row.len()).collect() } else { (0..row.len()).rev().collect() };
+                        for k in order { if let Step::Ex(t, ..) = row[k] { steps.push(Step::End(*t)); } }
+                    }
+                    emit(write_case(16 + 60, 0, &steps));
+                }
             }
             let _ = vi;
         }
